@@ -32,7 +32,10 @@ def classify(prop, results, kf):
                     v['samples'].append(dict(obligation=ob, check=c['id'], clause_at='%s:%d' % (os.path.basename(c['file']), c['line']), status='SUCCESS'))
                 continue
             if c['status'] != 'FAILURE':
-                v['undecided'].append(dict(unit=r['unit'], reason='check %s has status %s' % (c['id'], c['status'])))
+                # UNKNOWN: cbmc did not decide this check (it depends on another, failing check of the same unit);
+                # reported as undecided only if the unit has no failing check at all
+                if not any(x['status'] == 'FAILURE' for x in r['checks']):
+                    v['undecided'].append(dict(unit=r['unit'], reason='check %s has status %s' % (c['id'], c['status'])))
                 continue
             hit = None
             for f in kf['findings']:
